@@ -7,6 +7,7 @@ Conventions: `a` is the address of the receiver, `xs := h.items a` its elements,
 `n := xs.length`. A *scalar* argument is one `parseVal` stores without allocating.
 -/
 import Anytype.Lemmas.HeapWF
+import Anytype.Lemmas.Slices
 namespace Anytype
 open Heap
 
@@ -447,6 +448,66 @@ example : ProgOk exH [.add 0 [.list ⟨1, 0⟩, .slice .any [.obj ⟨2, 0⟩]], 
   simp [ProgOk, LOp.okIn, okInList, GoVal.okIn, stepL, exH, Heap.isList, Heap.isObj, L.add, L.new,
     addEach, parseVal, Heap.setItems, Heap.items]
 
+/-! ## Storage level: arrays, capacities, `append`
+
+Everything above reads `ego.val []field` as a plain list.  `Model/Slices` executes the same list
+operations on backing arrays with capacities (append in place or into a new array, `copy`, `make`),
+and the theorems below show that the plain-list reading is what the arrays do: for every growth
+policy of `append`, every spare capacity, every program — provided no two lists share an array, which
+is itself an invariant of all operations (and was not, for the `Concat` of the pinned source: F5).
+`astep` is written with the same core functions (`insertIdx`, `eraseIdx`, `set`, `dropLast`, `reverse`,
+`++`, `take`/`drop`) the specifications `C05_*_spec` above are written with. -/
+
+theorem C05_slice_refines {α : Type} (cfg : Slices.Cfg α) (sorted : List α → List α) (σ : Slices.SHeap α)
+    (hw : σ.WF) (op : Slices.Op α) :
+    (Slices.step cfg sorted σ op).1.WF ∧
+    ((Slices.step cfg sorted σ op).1.abs, (Slices.step cfg sorted σ op).2) = Slices.astep sorted σ.abs op :=
+  ⟨Slices.step_wf cfg sorted σ hw op, Slices.step_refines cfg sorted σ hw op⟩
+
+theorem C05_slice_program {α : Type} (cfg : Slices.Cfg α) (sorted : List α → List α) (ops : List (Slices.Op α)) :
+    (Slices.run cfg sorted Slices.SHeap.empty ops).1.WF ∧
+    ((Slices.run cfg sorted Slices.SHeap.empty ops).1.abs, (Slices.run cfg sorted Slices.SHeap.empty ops).2)
+      = Slices.arun sorted [] ops :=
+  Slices.run_from_empty cfg sorted ops
+
+theorem C05_slice_program_from {α : Type} (cfg : Slices.Cfg α) (sorted : List α → List α) (σ : Slices.SHeap α)
+    (hw : σ.WF) (ops : List (Slices.Op α)) :
+    (Slices.run cfg sorted σ ops).1.WF ∧
+    ((Slices.run cfg sorted σ ops).1.abs, (Slices.run cfg sorted σ ops).2) = Slices.arun sorted σ.abs ops :=
+  Slices.run_refines cfg sorted σ hw ops
+
+/-- what a program leaves in the lists, and whether it panics, does not depend on Go's growth policy -/
+theorem C05_slice_grow_irrelevant {α : Type} (cfg cfg' : Slices.Cfg α) (sorted : List α → List α)
+    (ops : List (Slices.Op α)) :
+    (Slices.run cfg sorted Slices.SHeap.empty ops).1.abs = (Slices.run cfg' sorted Slices.SHeap.empty ops).1.abs ∧
+    (Slices.run cfg sorted Slices.SHeap.empty ops).2 = (Slices.run cfg' sorted Slices.SHeap.empty ops).2 :=
+  Slices.grow_irrelevant cfg cfg' sorted ops
+
+/-- frame at storage level: an operation changes at most the list it is called on -/
+theorem C05_slice_frame {α : Type} (cfg : Slices.Cfg α) (sorted : List α → List α) (σ : Slices.SHeap α)
+    (hw : σ.WF) (op : Slices.Op α) (d : Nat) (hd : d < σ.cells.length) (hne : op.tgt ≠ some d) :
+    (Slices.step cfg sorted σ op).1.abs[d]? = σ.abs[d]? :=
+  Slices.step_frame cfg sorted σ hw op d hd hne
+
+/-- the hypothesis `WF` is met by a non-trivial heap (a list with spare capacity and a second list),
+and the `Concat` of the pinned source destroys it there: the result shares the receiver's array and a
+later `Add` on the receiver shows through it; the repaired `Concat` on the same heap does not -/
+theorem C05_slice_concatOld_breaks :
+    Slices.σF5.WF ∧ Slices.σF5.abs = [[1, 2, 3], [9]] ∧
+    ¬ (Slices.concatOld Slices.cfg2 Slices.σF5 0 1).1.WF ∧
+    (Slices.concatOld Slices.cfg2 Slices.σF5 0 1).1.abs = [[1, 2, 3], [9], [1, 2, 3, 9]] ∧
+    (Slices.step Slices.cfg2 id (Slices.concatOld Slices.cfg2 Slices.σF5 0 1).1 (.add 0 [7])).1.abs
+      = [[1, 2, 3, 7], [9], [1, 2, 3, 7]] ∧
+    (Slices.step Slices.cfg2 id (Slices.step Slices.cfg2 id Slices.σF5 (.concat 0 1)).1 (.add 0 [7])).1.abs
+      = [[1, 2, 3, 7], [9], [1, 2, 3, 9]] :=
+  Slices.concatOld_breaks
+
+/-- `astep`'s sublist is the sublist of `C05_subList_spec` -/
+theorem C05_slice_subList_bridge {α : Type} (xs : List α) (s e : Nat) :
+    (xs.take e).drop s = (xs.drop s).take (e - s) := by
+  rw [List.drop_take]
+
+
 #print axioms C05_parseVal_scalar
 #print axioms C05_setItems_view
 #print axioms C05_insert_spec
@@ -486,5 +547,12 @@ example : ProgOk exH [.add 0 [.list ⟨1, 0⟩, .slice .any [.obj ⟨2, 0⟩]], 
 #print axioms C05_indexOf
 #print axioms C05_step_wf
 #print axioms C05_program
+#print axioms C05_slice_refines
+#print axioms C05_slice_program
+#print axioms C05_slice_program_from
+#print axioms C05_slice_grow_irrelevant
+#print axioms C05_slice_frame
+#print axioms C05_slice_concatOld_breaks
+#print axioms C05_slice_subList_bridge
 
 end Anytype
